@@ -211,14 +211,44 @@ def r12a(P, R):
     R.floor("R12-a", "AST content fields", n, 38)
 
 
+def literal_at(acc, i, e):
+    """literal value of expression `e` occurring at node i of a (virtually inlined) function; a parameter of an inlined helper is
+    looked up in the arguments of the call it was inlined at (each copy of the helper has its own call site)"""
+    v = lit_value(e)
+    while v is None:
+        e = strip(e)
+        while e is not None and e.get("k") in ("AddrOf", "Cast", "Type"):
+            e = strip(e.get("e"))
+        if e is None or e.get("k") != "Path" or "local" not in e:
+            return None
+        p, site, pos = acc[i][1], None, None
+        while p >= 0 and site is None:
+            c = acc[p][0]
+            if "inl" in c:
+                pos = [k for k, pp in enumerate(c["inl"]["params"]) if pp.get("k") == "Binding" and pp.get("local") == e["local"]]
+                if pos:
+                    site = p
+                    break
+            p = acc[p][1]
+        if site is None:
+            return None
+        c = acc[site][0]
+        args = ([c["recv"]] if c.get("k") == "MethodCall" else []) + c["args"]
+        if pos[0] >= len(args):
+            return None
+        i, e = site, args[pos[0]]
+        v = lit_value(e)
+    return v
+
+
 def key_calls(fn):
-    """[(index, node, key literal)] for writer.value/array/object("key", ..) calls in fn"""
+    """[(index, node, key)] for writer.value/array/object(key, ..) calls in fn; the key is the literal, also when it reaches the
+    call as the parameter of an inlined helper (`write_nodes(writer, "directives", ..)`); None when it cannot be read"""
     out = []
-    for i, (n, _) in enumerate(fn.nodes()):
+    acc = fn.nodes()
+    for i, (n, _) in enumerate(acc):
         if n.get("k") == "MethodCall" and norm(n.get("callee")) in WRITER_KEY_METHODS and n["args"]:
-            key = lit_value(n["args"][0])
-            if key is not None:
-                out.append((i, n, key))
+            out.append((i, n, literal_at(acc, i, n["args"][0])))
     return out
 
 
@@ -228,6 +258,7 @@ def _not_printable(g):
 
 
 UNKNOWN_KINDS = []
+UNREAD_KEYS = set()
 
 
 def kind_tables(P, R):
@@ -236,6 +267,7 @@ def kind_tables(P, R):
     impls = P.trait_impls(TRAIT, "print_json")
     out = []
     del UNKNOWN_KINDS[:]
+    UNREAD_KEYS.clear()
     for fn0 in impls:
         fn = inlined(P, fn0, pred=_not_printable)
         acc = fn.nodes()
@@ -257,37 +289,9 @@ def kind_tables(P, R):
                     return p
                 p = acc[p][1]
             return -1
-        def literal_at(i, e):
-            """literal value of expression `e` occurring at node i; a parameter of an inlined helper is looked up in the
-            arguments of the call it was inlined at (each copy of the helper has its own call site)"""
-            v = lit_value(e)
-            while v is None:
-                e = strip(e)
-                while e is not None and e.get("k") in ("AddrOf", "Cast", "Type"):
-                    e = strip(e.get("e"))
-                if e is None or e.get("k") != "Path" or "local" not in e:
-                    return None
-                p, site, pos = acc[i][1], None, None
-                while p >= 0 and site is None:
-                    c = acc[p][0]
-                    if "inl" in c:
-                        pos = [k for k, pp in enumerate(c["inl"]["params"]) if pp.get("k") == "Binding" and pp.get("local") == e["local"]]
-                        if pos:
-                            site = p
-                            break
-                    p = acc[p][1]
-                if site is None:
-                    return None
-                c = acc[site][0]
-                args = ([c["recv"]] if c.get("k") == "MethodCall" else []) + c["args"]
-                if pos[0] >= len(args):
-                    return None
-                i, e = site, args[pos[0]]
-                v = lit_value(e)
-            return v
         kind_blocks = {}
         for i, n in kind_calls:
-            kind = literal_at(i, n["args"][1]) if len(n["args"]) > 1 else None
+            kind = literal_at(acc, i, n["args"][1]) if len(n["args"]) > 1 else None
             if kind is None:
                 UNKNOWN_KINDS.append(fn.path)
                 R.undecided("R12-b", "kind@%s" % short(fn.path), "%s writes a `kind` that is not a literal; its table is not decided" % fn.path, loc=fn.loc())
@@ -307,7 +311,10 @@ def kind_tables(P, R):
                 continue
             b = owning_kind_block(i)
             if b in tables:
-                tables[b].setdefault(key, []).append(n)
+                if key is None:
+                    UNREAD_KEYS.add((fn.path, kind_blocks[b][0]))       # a key that is not a literal: the table of this node is incomplete
+                else:
+                    tables[b].setdefault(key, []).append(n)
         for b, (kind, kn) in kind_blocks.items():
             out.append((fn, kind, tables[b], acc[b][0]))
     return out
@@ -325,8 +332,9 @@ def _ast_patterns(node):
 
 
 def _writes(node, key):
+    # a key that is not a literal at the call (parameter of a helper) may be this key
     return node is not None and any(x.get("k") == "MethodCall" and norm(x.get("callee")) in WRITER_KEY_METHODS and x["args"]
-                                    and lit_value(x["args"][0]) == key for x in subnodes(node))
+                                    and lit_value(x["args"][0]) in (key, None) for x in subnodes(node))
 
 
 def _only_absent(pat):
@@ -385,6 +393,10 @@ def r12b(P, R):
             missing = req - ks
             extra = ks - req - opt
             ok = not missing and not extra
+            if missing and not extra and (fn.path, kind) in UNREAD_KEYS:
+                R.undecided("R12-b", "keys:%s@%s" % (kind, short(fn.path)), "%s writes a key that is not a literal; whether it is one of %s "
+                            "is not decided" % (fn.path, sorted(missing)), loc=fn.loc())
+                continue
             R.check("R12-b", "keys:%s@%s" % (kind, short(fn.path)), ok,
                     "keys %s match graphql-js" % sorted(ks),
                     "JSON node `%s` written by %s has keys %s; graphql-js requires %s (optional %s): missing %s, unknown %s"
@@ -502,44 +514,67 @@ def r12c(P, R):
         R.undecided("R12-c", "descent", "%s is read by the traversal but does not flow into a recognised descent (recursive call / work-list push)" % unflowing, loc=loc)
     else:
         R.holds("R12-c", "descent", "the traversal descends into Field, InlineFragment and the spread fragment's selection sets", loc=loc)
-    # de-duplication: every push of a spread name onto a collection of names is dominated by a membership test on the same key
+    # de-duplication: every push of a spread name onto a collection of names is dominated by a membership test on the same key.
+    # Sites are found on the inlined traversal (a name that reaches a helper as a parameter is still the spread's name); dominance
+    # is decided in the MIR of the function that owns both sites
     SPREAD = ("field", "nitrogql_ast::selection_set::FragmentSpread", "fragment_name")
-    found = 0
-    for f in scope:
-        fp = Prov(f)
-        pushes = [n for n in f.walk() if n.get("k") == "MethodCall" and n["method"] in PUSHES and "str" in norm(n.get("recv_ty") or "")
-                  and n["args"] and SPREAD in fp.atoms(n["args"][-1])]
-        if not pushes:
+    accT = T.nodes()
+
+    def owner(i):
+        p = accT[i][1]
+        while p >= 0:
+            if "inl" in accT[p][0]:
+                return accT[p][0]["inl"]["fn"]
+            p = accT[p][1]
+        return C.path
+
+    def consumed(i):
+        p = accT[i][1]
+        while p >= 0 and accT[p][0].get("k") in ("DropTemps", "Paren", "Use"):
+            p = accT[p][1]
+        return p >= 0 and accT[p][0].get("k") != "Stmt"
+    names_calls = [(i, n) for i, (n, _) in enumerate(accT) if n.get("k") == "MethodCall" and n["args"] and "str" in norm(n.get("recv_ty") or "")]
+    pushes = [(i, n) for i, n in names_calls if n["method"] in PUSHES and SPREAD in pv.atoms(n["args"][-1])]
+    tests = [(i, n) for i, n in names_calls if n["method"] in MEMBERSHIP and SPREAD in pv.atoms(n["args"][0]) and consumed(i)]
+    for i, p in pushes:
+        f = P.fns.get(owner(i))
+        floc = f.loc() if f is not None else loc
+        if "Set<" in norm(p.get("recv_ty") or ""):
+            if not any(n is not p and not ("Set<" in norm(n.get("recv_ty") or "")) for _, n in pushes):
+                R.holds("R12-c", "dedup", "names are collected in a set", loc=floc)
             continue
-        conds = []
-        for n in f.walk():
-            if n.get("k") == "If":
-                conds.append(n["cond"])
-            elif n.get("k") == "Match" and n.get("src") == "Normal":
-                conds.append(n["scrut"])
-            elif n.get("k") == "Let" and "els" in n:
-                conds.append(n.get("init"))
-        tests = [x for c in conds if c is not None for x in subnodes(c) if x.get("k") == "MethodCall" and x["method"] in MEMBERSHIP and x["args"]
-                 and "str" in norm(x.get("recv_ty") or "") and SPREAD in fp.atoms(x["args"][0])]
-        mq = MirQ(P.mir[f.path]) if f.path in P.mir else None
-        for p in pushes:
-            found += 1
-            if "Set<" in norm(p.get("recv_ty") or ""):
-                R.holds("R12-c", "dedup", "names are collected in a set", loc=f.loc())
-                continue
-            mine = [t for t in tests if t is not p]
-            R.check("R12-c", "dedup", bool(mine), "a membership test on the spread name guards the push of the same key",
-                    "fragment names are not de-duplicated by a membership test on the pushed key: %s pushes the spread name with no "
-                    "contains/insert test on it in any condition" % f.path, loc=f.loc())
-            if mine and mq is not None:
-                tb, pb = mir_blocks(mq, mine), mir_blocks(mq, [p])
-                if not tb or not pb:
-                    R.undecided("R12-c", "dedup-dom", "the membership test / the push could not be located in the MIR of %s" % f.path, loc=f.loc())
-                else:
-                    R.check("R12-c", "dedup-dom", all(any(mq.dominates(t, b) for t in tb) for b in pb),
-                            "the membership test dominates the push in MIR", "push of a fragment name is not dominated by the membership test", loc=f.loc())
-    if not found:
+        mine = [n for j, n in tests if n is not p and owner(j) == owner(i)]
+        R.check("R12-c", "dedup", bool(mine), "a membership test on the spread name guards the push of the same key",
+                "fragment names are not de-duplicated by a membership test on the pushed key: %s pushes the spread name with no "
+                "contains/insert test on it in any condition" % owner(i), loc=floc)
+        mq = MirQ(P.mir[owner(i)]) if owner(i) in P.mir else None
+        if mine and mq is not None:
+            tb, pb = mir_blocks(mq, mine), mir_blocks(mq, [p])
+            if not tb or not pb:
+                R.undecided("R12-c", "dedup-dom", "the membership test / the push could not be located in the MIR of %s" % owner(i), loc=floc)
+            else:
+                R.check("R12-c", "dedup-dom", all(any(mq.dominates(t, b) for t in tb) for b in pb),
+                        "the membership test dominates the push in MIR", "push of a fragment name is not dominated by the membership test", loc=floc)
+    if not pushes:
         R.undecided("R12-c", "dedup", "no push of a spread's name onto a collection of names found in %s (or its helpers)" % C.path, loc=loc)
+
+
+def pushed_first(rt, pv, ext, me, is_cl):
+    """`let mut list = Vec::new()/with_capacity(..); list.push(definition); list.extend(closure)`: the receiver of `ext` is a
+    local created empty, and everything pushed onto it before `ext` is the definition itself"""
+    r = strip(ext["recv"])
+    while r is not None and r.get("k") in ("AddrOf", "Unary"):
+        r = strip(r.get("e"))
+    if r is None or r.get("k") != "Path" or "local" not in r:
+        return False
+    inits = [src for src, _ in pv.src.get(r["local"], [])]
+    if len(inits) != 1 or inits[0] is None or strip(inits[0]).get("k") != "Call" or \
+            (call_name(strip(inits[0])) or "").split("::")[-1] not in ("new", "with_capacity", "default"):
+        return False
+    order = {id(n): i for i, (n, _) in enumerate(rt.nodes())}
+    before = [n for n in rt.walk() if n.get("k") == "MethodCall" and n["method"] in PUSHES and n["args"] and strip(n["recv"]).get("k") == "Path"
+              and strip(n["recv"]).get("local") == r["local"] and order[id(n)] < order[id(ext)]]
+    return bool(before) and all(("param", me) in pv.atoms(n["args"][-1]) and not any(is_cl(a) for a in pv.atoms(n["args"][-1])) for n in before)
 
 
 def r12d(P, R):
@@ -571,17 +606,18 @@ def r12d(P, R):
         pv = Prov(rt)
         acc = rt.nodes()
         me = pv.params.get(rt.params[_param_of(rt, adt)].get("local"))
-        fcalls = [i for i, (n, _) in enumerate(acc) if n.get("k") == "Call" and call_name(n) == C.path]
+        fcalls = [i for i, (n, _) in enumerate(acc) if n.get("k") in ("Call", "MethodCall") and call_name(n) == C.path]
         if not fcalls:
             R.undecided("R12-d", "closure-root:" + rt.name, "%s does not call %s directly" % (rt.path, C.path), loc=rt.loc())
             continue
         call = acc[fcalls[0]][0]
-        ok = has_field(pv.atoms(call["args"][si]), adt, "selection_set")
+        cargs = ([call["recv"]] if call.get("k") == "MethodCall" else []) + call["args"]
+        ok = si < len(cargs) and has_field(pv.atoms(cargs[si]), adt, "selection_set")
         R.check("R12-d", "closure-root:" + rt.name, ok, "closure is computed from the definition's own selection set",
                 "%s does not compute the fragment closure from its definition's selection_set" % rt.path, loc=rt.loc())
         # nothing else of the definition decides which fragments belong to the document
         extra = {}
-        for ai, a in enumerate(call["args"]):
+        for ai, a in enumerate(cargs):
             for x in pv.atoms(a):
                 if x[0] == "field" and x[1] == adt and x[2] not in allowed:
                     extra.setdefault(ai, set()).add(x[2])
@@ -616,6 +652,8 @@ def r12d(P, R):
             first, rest = ("param", me) in ra, any(is_cl(a) for a in aa)
             if first and rest and not any(is_cl(a) for a in ra):
                 R.holds("R12-d", "order:" + rt.name, "document = [definition] ++ closure (definition first)", loc=rt.loc())
+            elif rest and chains[0]["method"] != "chain" and pushed_first(rt, pv, chains[0], me, is_cl):
+                R.holds("R12-d", "order:" + rt.name, "document = empty list, push(definition), extend(closure) (definition first)", loc=rt.loc())
             elif any(is_cl(a) for a in ra) and ("param", me) in aa and not first:
                 R.violated("R12-d", "order:" + rt.name, "%s assembles the document as the fragment closure followed by the definition; the "
                            "definition must come first" % rt.path, loc=rt.loc())
@@ -629,6 +667,14 @@ def r12d(P, R):
                 while acc[j][1] >= 0 and acc[acc[j][1]][0].get("k") == "MethodCall" and acc[acc[j][1]][0]["recv"] is acc[j][0]:
                     j = acc[j][1]
                 tops.append(acc[j][0])
+                # ... or the names are bound to a local that is then narrowed in place (`names.retain(|n| *n != fragment.name.name)`)
+                p = acc[j][1]
+                while p >= 0 and acc[p][0].get("k") in ("DropTemps", "Paren", "Use"):
+                    p = acc[p][1]
+                if p >= 0 and acc[p][0].get("k") == "Let" and acc[p][0]["pat"].get("k") == "Binding":
+                    lid = acc[p][0]["pat"]["local"]
+                    tops.extend(n for n in rt.walk() if n.get("k") == "MethodCall" and strip(n["recv"]).get("k") == "Path"
+                                and strip(n["recv"]).get("local") == lid)
             ok = any(has_field(pv.atoms(t), FRDEF, "name") for t in tops)
             if ok:
                 R.holds("R12-d", "self-filter", "the fragment itself is filtered out of its own closure (appears exactly once)", loc=rt.loc())
